@@ -1,12 +1,13 @@
 // c11 — harness for C11 (block processing is race-free and schedule independent).
 // This binary has two roles (same package, built twice):
-//   orchestrator (built by ./check without -race): asks the Lean oracle for the source-fact checks, builds
-//     the WORKER with `go build -race -tags verif` (cached under .work), runs it under GORACE with the
-//     race log captured, and judges what the worker observed: schedule-dependent verdict/tip/UTXO dump,
-//     every UTXO.db that became visible (header vs content), data-race reports, and the vhook event traces
-//     (checked by the Lean monitor = the invariants proved for the snapshot-protocol model). It also drives
-//     the Lean models themselves through random schedules (supporting exploration of the model).
-//   worker (`c11 worker …`, see worker.go): runs the real code.
+//
+//	orchestrator (built by ./check without -race): asks the Lean oracle for the source-fact checks, builds
+//	  the WORKER with `go build -race -tags verif` (cached under .work), runs it under GORACE with the
+//	  race log captured, and judges what the worker observed: schedule-dependent verdict/tip/UTXO dump,
+//	  every UTXO.db that became visible (header vs content), data-race reports, and the vhook event traces
+//	  (checked by the Lean monitor = the invariants proved for the snapshot-protocol model). It also drives
+//	  the Lean models themselves through random schedules (supporting exploration of the model).
+//	worker (`c11 worker …`, see worker.go): runs the real code.
 package main
 
 import (
@@ -386,7 +387,8 @@ func main() {
 			jobs = append(jobs, j)
 		}
 	} else {
-		jobs = []job{{Seed: r.Seed, Shard: 0, Tier: "quick", Only: "resave"}, {Seed: r.Seed, Shard: 0, Tier: "quick", Only: "chain"}, {Seed: r.Seed, Shard: 1, Tier: "quick", Only: "chain"}}
+		jobs = []job{{Seed: r.Seed, Shard: 0, Tier: "quick", Only: "resave"}, {Seed: r.Seed, Shard: 0, Tier: "quick", Only: "chain"},
+			{Seed: r.Seed, Shard: 1, Tier: "quick", Only: "chain"}, {Seed: r.Seed, Shard: 0, Tier: "quick", Only: "compr"}}
 	}
 	type result struct {
 		j     job
@@ -413,7 +415,15 @@ func main() {
 	nrep := 0
 	for _, x := range res {
 		if x.err != nil {
-			r.TieFail("worker-crash", x.err.Error(), map[string]interface{}{"job": x.j})
+			msg := x.err.Error()
+			if i := strings.Index(msg, "piotrnar/gocoin/"); i >= 0 && (strings.Contains(msg, "panic:") || strings.Contains(msg, "fatal error:")) {
+				// a goroutine of the real code died under a perturbed schedule (the sequential reference of the same
+				// scenario did not): not recoverable in-process, observed through the exit of the worker
+				r.PropFail("crash-under-schedule", "the real code crashed in a background goroutine while the scenario was replayed under a perturbed schedule: "+msg,
+					map[string]interface{}{"job": x.j, "log": msg})
+			} else {
+				r.TieFail("worker-crash", msg, map[string]interface{}{"job": x.j})
+			}
 			for _, rc := range x.races {
 				r.PropFail(rc.Key, "the Go race detector reported a data race in the real code: "+rc.Key, map[string]interface{}{"job": x.j, "report": rc.Text})
 			}
@@ -426,7 +436,8 @@ func main() {
 	r.Extra["replays_under_perturbed_schedules"] = nrep
 	r.Finish("cases: (1) every UTXO.db that became visible in a replay of the real code under a perturbed schedule (distinct by schedule, tip, content); "+
 		"(2) one vhook event trace per replay, checked by the Lean monitor; (3) commitTxs verdicts compared with the Lean fan-out model under a random schedule; "+
-		"(4) random programs x schedules of the Lean snapshot-protocol model (distinct by request). Non-trivial: a snapshot file with records, a trace with at least one save, a block with transactions, a model run with at least one step.",
-		"Level other: the synchronisation protocols (snapshot writer vs committer, commitTxs fan-out, BlockDB publish-last, disjoint-key updates, atomic sums, compute-once caches) are modelled as transition systems with an arbitrary scheduler and their invariants are proved in Lean for all interleavings; the lock discipline is checked by kernel evaluation on the synchronisation sequences regenerated from the source. "+
-			"What no executable Lean model exhibits — and is therefore only explored, not proved — is the Go memory model itself: word tearing and reordering of unsynchronised accesses, the real goroutine scheduler, map-iteration order, and OS file semantics (two writers on one inode). Those are covered by running the real code under the race detector with GOMAXPROCS 1..16 and pseudo-random yields/sleeps at every vhook point, which samples schedules and proves nothing about the ones not run.")
+		"(4) random programs x schedules of the Lean snapshot-protocol model (distinct by request; supports the theorems, which cover all of them). Non-trivial: a snapshot file with records, a trace with at least one save, a block with transactions, a model run with at least one step.",
+		"The synchronisation protocols (snapshot writer vs committer, commitTxs fan-out, BlockDB publish-last, disjoint-key updates, atomic sums, compute-once caches) are modelled as transition systems with an arbitrary scheduler; "+
+			"snapshot_atomic, no_deadlock (data_channel capacity >= 1), commit_schedule_independent and the supporting invariants are proved in Lean for ALL programs and interleavings of those systems; the lock discipline and 16 protocol-shape facts are decided by the kernel on the synchronisation sequences regenerated from the source on this run. "+
+			"What no executable Lean model exhibits — and is therefore only explored, not proved — is the Go memory model itself: word tearing and reordering of unsynchronised accesses, the real goroutine scheduler, map-iteration order, and OS file semantics (two writers on one inode). Those, and the faithfulness of the hand-written transition systems beyond the shape facts, are covered by running the real code under the race detector with GOMAXPROCS 1..16 and pseudo-random yields/sleeps at every vhook point (chain scenarios, the directed same-tip resave, and a compressed-UTXO scenario with several SerializeC calls in flight), which samples schedules and proves nothing about the ones not run.")
 }
